@@ -6,6 +6,8 @@ import (
 	"compress/gzip"
 	"context"
 	"fmt"
+	"google.golang.org/grpc"
+	"io"
 	"net/http"
 	"net/url"
 	"os"
@@ -45,7 +47,8 @@ type Neg struct {
 
 // Case is a fully split request plus the message it was split from.
 type Case struct {
-	Later       bool     `json:"later"` // another service is registered on the mux after the one under test
+	Stream      bool     `json:"stream"` // the method is client-streaming: the body is a stream whose first (only) message is M's body part
+	Later       bool     `json:"later"`  // another service is registered on the mux after the one under test
 	Verb        string   `json:"verb"`
 	Tmpl        string   `json:"tmpl"`
 	BodySel     string   `json:"body_sel"` // "", "*", field
@@ -93,13 +96,27 @@ func normalise(m proto.Message, bodySel string) {
 
 // Check sends the request and applies the oracle.
 func Check(c Case) (vs []evid.Violation, delivered bool) {
-	svc := dyn.Svc("C3", dyn.MethodSpec{Name: "Do", In: ".un.All", Out: ".un.All", Rule: httpRule(c)})
+	svc := dyn.Svc("C3", dyn.MethodSpec{Name: "Do", In: ".un.All", Out: ".un.All", Rule: httpRule(c), ClientStream: c.Stream})
 	w := uni.WorldWith(svc, dyn.Svc("C3Later", dyn.MethodSpec{Name: "Other", In: ".un.All", Out: ".un.All"}))
 	var got []proto.Message
 	sd := w.ServiceDesc("un.C3", func(ctx context.Context, fm string, req *dynamicpb.Message) (proto.Message, error) {
 		got = append(got, proto.Clone(req))
 		return dynamicpb.NewMessage(req.Descriptor()), nil
-	}, nil)
+	}, func(full string, in, out protoreflect.MessageDescriptor, ss grpc.ServerStream) error {
+		for i := 0; ; i++ {
+			m := dynamicpb.NewMessage(in)
+			if err := ss.RecvMsg(m); err != nil {
+				if err != io.EOF {
+					return err
+				}
+				break
+			}
+			if i == 0 {
+				got = append(got, proto.Clone(m))
+			}
+		}
+		return ss.SendMsg(dynamicpb.NewMessage(out))
+	})
 	mux, err := larking.NewMux(larking.FilesOption(w.Files))
 	if err != nil {
 		panic(err)
@@ -127,7 +144,11 @@ func Check(c Case) (vs []evid.Violation, delivered bool) {
 	var req *http.Request
 	if len(c.Body) > 0 {
 		rd := &drive.ScriptReader{Data: c.Body, Chunks: append([]int{}, c.Chunks...), EOFWithLast: c.EOFWithLast}
-		req = drive.Request(c.Verb, c.Path, c.RawQuery, hdr, rd, int64(len(c.Body)))
+		cl := int64(len(c.Body))
+		if c.Stream {
+			cl = -1
+		}
+		req = drive.Request(c.Verb, c.Path, c.RawQuery, hdr, rd, cl)
 	} else {
 		req = drive.Request(c.Verb, c.Path, c.RawQuery, hdr, nil, 0)
 	}
@@ -572,6 +593,17 @@ func genCase(t *rapid.T) Case {
 		case "octet":
 			c.ContentType = "application/octet-stream"
 			c.Body, _ = proto.Marshal(bodyMsg)
+		}
+		if c.Neg == nil && len(c.Body) > 0 && rapid.IntRange(0, 7).Draw(t, "stream") == 0 {
+			// the same message as the first message of a client stream (JSON: concatenated values;
+			// protobuf: length-delimited)
+			c.Stream = true
+			c.Classes = append(c.Classes, "client-stream")
+			if codec == "proto" || codec == "octet" {
+				var sb bytes.Buffer
+				larking.CodecProto{}.WriteNext(&sb, c.Body)
+				c.Body = sb.Bytes()
+			}
 		}
 		if len(c.Body) > 0 && rapid.IntRange(0, 3).Draw(t, "gzip") == 0 {
 			// one gzip member, or the same bytes as two concatenated members (RFC 1952 2.2: a gzip
